@@ -22,11 +22,14 @@ Definition sprob_row (l : list xq) : Prop :=
 
 Definition disc_ok (d : xq) : Prop := exists q, d = XFin q /\ 0 < q /\ q <= 1.
 
-(* tolerances guaranteed per storage kind; n = row length.  Dense: the validators' own.
-   Sparse: entries may be as low as -epsS (SparseMatrix overload cannot see small negatives) and a
-   row may lose up to n dropped entries of at most epsS each. *)
-Definition kneg (k : kind) : Q := match k with Dense => 0 | Sparse => epsS end.
-Definition ksum (k : kind) (n : nat) : Q :=
+(* tolerances per storage kind; n = row length.  After the C06 repairs both classes guarantee the
+   library's own notion (entries >= 0, sum within epsS of 1).  [kneg0]/[ksum0] are what the sparse
+   classes of the pinned commit guarantee (entries as low as -epsS, up to n dropped entries of at
+   most epsS each); the driver uses them to tell the two known findings from anything worse. *)
+Definition kneg (k : kind) : Q := 0.
+Definition ksum (k : kind) (n : nat) : Q := epsS.
+Definition kneg0 (k : kind) : Q := match k with Dense => 0 | Sparse => epsS end.
+Definition ksum0 (k : kind) (n : nat) : Q :=
   match k with Dense => epsS | Sparse => (inject_Z (Z.of_nat n) + 1) * epsS end.
 
 (* a 3D table [i][j][.] of n1 x n2 rows of length n3, every row satisfying P *)
@@ -106,6 +109,11 @@ Definition valid_model_tolb (neg tol : Q) (m : model) : bool :=
   tab_okb (prob_row_tolb neg tol) (mA m) (mS m) (mS m) (mT m) &&
   shape2 (mS m) (mA m) (mR m) && disc_okb (mD m).
 Definition valid_model_kb (k : kind) (m : model) : bool := valid_model_tolb (kneg k) (ksum k (mS m)) m.
+(* pinned-commit tolerances (no theorem for the unrepaired sparse setters beyond ProofsModel.drop_small_prob_row) *)
+Definition valid_model_k0b (k : kind) (m : model) : bool := valid_model_tolb (kneg0 k) (ksum0 k (mS m)) m.
+Definition valid_pmodel_k0b (kb ko : kind) (p : pmodel) : bool :=
+  valid_model_k0b kb (pM p) &&
+  tab_okb (prob_row_tolb (kneg0 ko) (ksum0 ko (pO p))) (mA (pM p)) (mS (pM p)) (pO p) (pOb p).
 Definition valid_pmodel_kb (kb ko : kind) (p : pmodel) : bool :=
   valid_model_kb kb (pM p) &&
   tab_okb (prob_row_tolb (kneg ko) (ksum ko (pO p))) (mA (pM p)) (mS (pM p)) (pO p) (pOb p).
@@ -131,3 +139,25 @@ Definition acc_row_okb (trow : vec) (r : Q) : bool :=
 (* the derived MDP row is an exact distribution and the reward is a finite number *)
 Definition amdp_row_valid (out : vec * xq) : Prop :=
   is_dist (fst out) /\ exists q, snd out = XFin q.
+
+(* ------------------------------------------------------------------ reward oracle *)
+(* "expected rewards equal the supplied ones": stored R(s,a) against sum_s1 r(s,a,s1) * T(s,a,s1),
+   where m carries the table T the rewards are taken under (the dumped T, or the supplied one for the
+   copy constructors).  tol absorbs double rounding (0 = exact); the sparse classes may store 0 for a
+   value within epsS of 0. *)
+Definition reward_entry_okb (k : kind) (tol stored computed : Q) : bool :=
+  Qle_bool (qabs (stored - computed)) tol ||
+  match k with
+  | Dense => false
+  | Sparse => Qeq_bool stored 0 && Qle_bool (qabs computed) (epsS + tol)
+  end.
+Definition rewards_okb (k : kind) (tol : Q) (m : model) (r : rtab3) : bool :=
+  forallb (fun s => forallb (fun a => reward_entry_okb k tol (R_at m s a) (exp_reward m r s a))
+                            (seq 0 (mA m))) (seq 0 (mS m)).
+
+(* a contribution of the AMDP loop: bucket indices in range (the discretizer maps into [0, S1)),
+   mass non-negative (a sum of products of probabilities) *)
+Definition contrib_ok (S1 A : nat) (c : contrib) : Prop :=
+  (c_s c < S1)%nat /\ (c_s1 c < S1)%nat /\ (c_a c < A)%nat /\ 0 <= c_p c.
+Definition contrib_okb (S1 A : nat) (c : contrib) : bool :=
+  (c_s c <? S1)%nat && (c_s1 c <? S1)%nat && (c_a c <? A)%nat && Qle_bool 0 (c_p c).
